@@ -33,7 +33,7 @@ def step (w : W) (line : String) : W × String :=
   | ["close"] => ({ w with closed := true }, "ok")
   | ["read", n] =>
     if w.st.buf.isNone && w.pending.isEmpty && (w.dead || !w.closed) then
-      ({ w with dead := true }, if w.dead then "eof" else "err-blocked")
+      ({ w with dead := true }, if w.dead then "eof" else "blocked")
     else
       let (st', p', res) := read w.slack w.st w.pending (natOf n)
       let w' := { w with st := st', pending := p' }
